@@ -253,7 +253,8 @@ def run(ctx):
 def episode(ctx, t, prop, family, tools, memo, mm, rep):
     nfiles = 1 + t.draw(3, "nfiles") if family in MULTIFILE else 1
     root = f"/sim/w1/r{rep}"
-    w = gen_world(t, root, nfiles=nfiles, qualified=family in QUALIFIED, max_refs=16)
+    w = gen_world(t, root, nfiles=nfiles, qualified=family in QUALIFIED, max_refs=16,
+                  alt_multipart=family == "rrel")  # FQN splits at '.', only RREL honours the match rule's split
     w.install(SIMFS)
     closure = w.closure()
     refs = [r for r in w.refs if r.owner.file in closure]
@@ -364,7 +365,7 @@ def episode(ctx, t, prop, family, tools, memo, mm, rep):
             ctx.violate("C09", "result-independent-of-order", f"{family}/list-order",
                         f"{u.sid()}.refs = {[x.name for x in got]} under this schedule, {[x.name for x in exp]} under "
                         f"the eager one")
-        for attr in ("one", "opt"):
+        for attr in ("one", "opt", "alt"):
             rr = [r for r in u.refs if r.attr == attr]
             val = getattr(uo, attr)
             if rr:
